@@ -6,8 +6,11 @@ use serde_json::Value;
 use vmodel::engine::{Failure, ShardCtx, Tier, Verdict};
 
 pub mod common;
+pub mod c02;
 pub mod c04;
 pub mod c07;
+pub mod c08;
+pub mod c17;
 
 pub enum PrepError {
     Violation(Failure),
@@ -50,7 +53,7 @@ pub const DEFAULT: Check = Check {
 };
 
 pub fn all() -> Vec<Check> {
-    vec![c04::check(), c07::check()]
+    vec![c02::check(), c04::check(), c07::check(), c08::check(), c17::check()]
 }
 
 pub fn find(id: &str) -> Option<Check> {
